@@ -183,8 +183,9 @@ CHECKS["C10"] = {
             "and both ieee flags, std::complex conversions, ==, !=, unary minus, 23 forwarded functions, accessors). Oracles: exact __float128 arithmetic with a normwise 8-eps tolerance for well-scaled finite operands, the six "
             "Annex G rules of the statement with libstdc++ as a second opinion, bit-identity between closure kinds and against std::complex for forwarded functions.",
     "design_ref": "DESIGN.md section 3, C10",
-    "note": "Trusted: __float128, libstdc++ std::complex as second opinion. Bounded by the alphabet. 160 manifest entries per type are ill-formed on this tree (operator=, +=, -= across different instantiations read private "
-            "members) and are decided by compile probes, reported as notes.",
+    "note": "Trusted: __float128, libstdc++ std::complex as second opinion. Bounded by the alphabet. 1172 of 4922 instantiations (826 of 2909 manifest entries) are ill-formed on this tree (operator=, +=, -= across different instantiations read private "
+            "members; no compound overload for a std::complex operand) and are decided by compile probes, reported as notes. Part mixc: compound assignment between xcomplex objects of different value types "
+            "(left float/double x right float/double/int/long double, all closure kinds and ieee flags, 176 well-formed instantiations), all operand tuples over V(T1)^2 x R^2, judged in the LEFT operand's precision.",
     "technique": "exhaustive enumeration of operand pairs over a boundary alphabet (V^4) x all instantiations against exact wide arithmetic and the Annex G rule table",
 }
 CHECKS["C18"] = {
